@@ -44,8 +44,9 @@ PROPS = {
         "assumptions": ["u64 overflow of chunk_index*chunk_size excluded", "serde_json round trip of the configuration is exercised (via=meta), not modelled"],
     },
     "C07": {
-        "lean_props": ["ZarrsModel.Props.C07"],
+        "lean_props": ["ZarrsModel.Props.C07", "ZarrsModel.Props.C07Shard"],
         "harness": "c07",
+        "harness_also": ["c02s"],
         "rule": "every case of the C01 generator (random array configurations over all registered codecs incl. nested sharding, regular/rectangular grids, 12 data types, elision on/off; one fifth with "
                 "experimental partial encoding enabled on the synchronous side) with 1..10 (thorough 30) write operations, interleaved reads of all kinds, partial-decoder requests of 1-3 sub-boxes, key "
                 "listings, a contents comparison through fresh handles, re-opening and full reads; each line executed through the sync and the async API; plus 150 (thorough 1500) hierarchy histories whose "
